@@ -230,6 +230,38 @@ fn check_shape(shape: &[usize]) -> (u64, u64, Vec<Viol>) {
                 lib_case(shape, &to, "ramp"),
             );
         }
+        // finite inputs give finite outputs: all-zero, sign-alternating, huge and tiny spectra
+        for (name, x) in [
+            ("zeros", RefArray::zeros(shape)),
+            ("alternating", RefArray::from_fn(shape, |f, _| if f % 2 == 0 { 1.5 } else { -2.0 })),
+            ("huge", RefArray::from_fn(shape, |f, _| if f == cells / 2 { 1e300 } else { 0.0 })),
+            ("tiny", RefArray::from_fn(shape, |f, _| if f == cells - 1 { 5e-324 } else { 0.0 })),
+        ] {
+            evals += 1;
+            let expect = x.project(&to);
+            match project_real(&x, &to) {
+                Ok(Ok(got)) => {
+                    let finite = got.data.iter().all(|v| v.is_finite());
+                    let scale = x.data.iter().fold(0.0f64, |m, v| m.max(v.abs()));
+                    let ok = got.shape == expect.shape
+                        && got.data.iter().zip(&expect.data).all(|(a, b)| (a - b).abs() <= 1e-8 * b.abs() + 1e-12 * scale);
+                    if !finite || !ok {
+                        push(
+                            &mut viols,
+                            format!("C03|lib|special-input-{}|{name}", if finite { "wrong" } else { "non-finite" }),
+                            format!("project '{name}' spectrum of shape {shape:?} to {to:?} = {:?}, expected {:?}", got.data, expect.data),
+                            lib_case(shape, &to, name),
+                        );
+                    }
+                }
+                other => push(
+                    &mut viols,
+                    format!("C03|lib|special-input-failed|{name}"),
+                    format!("project '{name}' spectrum of shape {shape:?} to {to:?}: {other:?}"),
+                    lib_case(shape, &to, name),
+                ),
+            }
+        }
         // two-step: via every intermediate shape between `to` and `shape`
         let span: Vec<usize> = shape.iter().zip(&to).map(|(s, t)| s - t + 1).collect();
         for mid_idx in indices(&span) {
